@@ -126,7 +126,8 @@ def run_job(job):
                     seg["ops"].append({"op": "alias", "name": st["name"], "target": st["target"]})
                     seg["meta"].append({"step": st})
             elif do == "call":
-                seg["ops"].append({"op": "call", "name": st["name"], "twin_text": vprogs.module_source(prog, twin=True)})
+                seg["ops"].append({"op": "call", "name": st["name"], "how": st.get("how", "plain"),
+                                   "twin_text": vprogs.module_source(prog, twin=True)})
                 seg["meta"].append({"step": st})
             elif do == "query":
                 seg["ops"].append({"op": "query", "name": st["name"], "how": st.get("how", "plain")})
